@@ -209,13 +209,13 @@ def splits(n, parts):
         yield [(b[i], b[i + 1] - b[i]) for i in range(parts)]
 
 
-def gen_T3(fmt, shapes, np):
+def gen_T3(fmt, shapes, np, hints=None):
     cases = []
     for si, sh in enumerate(shapes):
         L = lens(sh)
         if not L: continue
         for coll in (1, 0):
-            s = Script('T3-f%d-s%d-np%d-c%d' % (fmt, si, np, coll), np, fmt, DIMS, [('v', D.NC_INT, list(sh)), ('w', D.NC_INT, [0, 1])])
+            s = Script('T3-f%d-s%d-np%d-c%d%s' % (fmt, si, np, coll, '-' + hints.replace('=', '_') if hints else ''), np, fmt, DIMS, [('v', D.NC_INT, list(sh)), ('w', D.NC_INT, [0, 1])], hints=hints)
             background(s)
             if not coll: s.op('*', 'begin_indep')
             tag = 1
@@ -286,6 +286,9 @@ def main(tier=None):
         out += gen_T2(1, SHAPES[1:4], LAYOUTS_QUICK, hints='nc_in_place_swap=disable')
         for np in (2, 3): out += gen_T3(1, SHAPES, np)
         out += gen_T3(5, SHAPES, 2)
+        # the same decompositions (including processes whose piece is empty) with intra-node write aggregation: one aggregator, and two
+        out += gen_T3(1, SHAPES, 2, hints='nc_num_aggrs_per_node=1') + gen_T3(2, SHAPES[1:5], 3, hints='nc_num_aggrs_per_node=1')
+        out += gen_T3(5, SHAPES[1:5], 4, hints='nc_num_aggrs_per_node=2')
         out += gen_T4((1, 2, 5))
         # files in which the accessed variable is the ONLY record variable (records packed back to back: other contiguity rules)
         recshapes = [sh for sh in SHAPES if sh and sh[0] == 0]
@@ -323,7 +326,7 @@ def main(tier=None):
                 if o.get('op') == 'get': ck.outcomes.add(o.get('vals'))
     ck.cov['distinct_nontrivial'] = len(ck.outcomes)
     ck.cov['rule'] = ('exhaustive products T1 (all legal start/count/stride tuples), T2 (forms x buffer layouts x indep/coll on 6 regions per shape), '
-                      'T3 (all splits across ranks), T4 (external x memory type pairs), T5 (write form x read form pairs); each case ends with close, reopen, '
+                      'T3 (all splits across ranks incl. empty pieces, also under intra-node aggregation with 1 and 2 aggregators), T4 (external x memory type pairs), T5 (write form x read form pairs); each case ends with close, reopen, '
                       're-read and an independent decode of the file; distinct_nontrivial = number of distinct read-back value vectors observed')
     ck.cov['cases'] = len(scripts)
     ck.sample(scripts[0].case.text()[:1500]); ck.sample(scripts[len(scripts) // 2].case.text()[:1500])
